@@ -393,6 +393,10 @@ type C15Case struct {
 	Mixed  []bool       `json:"mixed,omitempty"`
 }
 
+var c15Names = []string{"Makefile", "makefile", "MAKEFILE", "README", "readme", "Readme.md", "main.go", "main", "Main.go", "-v", "-V", "-r", "-R", "--verbose", "--Verbose",
+	"--version", "a", "A", "ab", "aB", "Ab", "AB", "abc", "x.y", "x_y", "x-y", "X-Y", "été", "Été", "ÉTÉ", "日本", "日本語", "z", "Z", "zz", "zZ", "0", "00", "1", "10", "2",
+	"file.txt", "File.txt", "FILE.TXT", "file.TXT", "src/", "Src/", "SRC/", "a.b", "A.b", "a.B", "~", "_", "__", "@home", "@Home", "k8s", "K8s", "K8S", "q", "Q", "qq", "Qq", "qQ", "QQ"}
+
 func genC15(t *rapid.T) *C15Case {
 	c := &C15Case{Cols: rapid.SampledFrom([]int{10, 16, 24, 40, 80, 120, 160}).Draw(t, "cols"), Rows: rapid.SampledFrom([]int{5, 8, 12, 24, 50}).Draw(t, "rows")}
 	c.Prefix = rapid.SampledFrom([]string{"", "", "pre"}).Draw(t, "prefix")
@@ -401,8 +405,21 @@ func genC15(t *rapid.T) *C15Case {
 	long := rapid.IntRange(0, 4).Draw(t, "long") == 0
 	wide := rapid.IntRange(0, 5).Draw(t, "wide") == 0
 
+	// value style: numbered, or names as completers produce them (values that
+	// differ only by case, that are prefixes of each other, flags, punctuation)
+	named := rapid.IntRange(0, 2).Draw(t, "named") == 0
+	names := []string{}
+
+	if named {
+		names = rapid.Permutation(c15Names).Draw(t, "names")
+		n = min(n, len(names))
+	}
+
 	for i := 0; i < n; i++ {
 		v := fmt.Sprintf("%sv%02d", c.Prefix, i)
+		if named {
+			v = c.Prefix + names[i]
+		}
 
 		if long && i%3 == 0 {
 			v += strings.Repeat("-long", rapid.IntRange(1, 8).Draw(t, "longlen"))
